@@ -124,6 +124,9 @@ type c02D struct {
 	rootLabeled bool // a top-level quota may carry the parent label explicitly or not at all
 	// handed in by the harness (leaves only)
 	req, used [3]int64
+	// the gpu min the quota declared before the dimension was last dropped (a re-add often declares it again)
+	hadGpuMin  bool
+	lastGpuMin int64
 }
 
 func (q *c02D) annClass() int {
@@ -901,6 +904,9 @@ func TestVerifC02Spec(t *testing.T) {
 					setUsed(q, nu)
 					setReq(q, nr)
 				}
+				if mv, ok := q.min[d]; ok && d == 2 {
+					q.hadGpuMin, q.lastGpuMin = true, mv
+				}
 				delete(q.max, d)
 				if q.min != nil {
 					delete(q.min, d)
@@ -1021,6 +1027,9 @@ func TestVerifC02Spec(t *testing.T) {
 						q.max[2] = c02GenAmount(r, 2)
 						if q.min != nil && r.Bool() {
 							q.min[2] = c02GenMinVal(r, q, 2)
+							if q.hadGpuMin && r.Bool() { // the same min as before the dimension went away
+								q.min[2] = c02Min(q.lastGpuMin, q.max[2])
+							}
 						}
 						apply(q)
 					}
